@@ -79,6 +79,12 @@ class MasterSpec(Spec):
     def descend(self, eng, callee):
         return callee in self.reach
 
+    def view(self, eng, body):
+        # private helpers without events of their own (a hoisted decision, a merged answer, ..) are part of their caller
+        import inline
+        keep = lambda fn: (fn in self.reach or fn in FINISH or fn in TASK or fn in CANCEL)
+        return inline.inlined(self.F, body, keep_pred=keep, depth=2, budget=400)
+
 
 def answers(acc):
     return acc[0] + max(acc[1] - acc[2], 0)
